@@ -6,6 +6,7 @@
   C03.3 dispatch-key agreement: _prep_wrapped_messages key = transport property = client lookup, unfiltered
   C03.4 call path: exactly one rpc(...) call on every path, argument/keyword slots, response/return/await guards
   C03.5 request coercion arms use the method's input type in every position
+  C03.6 the stub cache is created per transport instance in __init__
 """
 from __future__ import annotations
 
@@ -72,6 +73,48 @@ def check_stubs(report, lib: Lib, tname: str, label: str):
             found.setdefault((bool(in_pb2), bool(out_pb2)), (D(sk, c)))
     r.need(found, f"stub properties in {label}")
     return found
+
+
+def check_stub_cache_scope(report, lib: Lib):
+    """C03.6: the dict the stub properties cache in is created per transport instance.  A cache that lives on the class (or is never
+    created in __init__) is shared by every transport of the process: the second client's calls go out on the first client's channel."""
+    r = report.rule("C03.6", "the stub cache (self.<X>[key] written by the stub properties) is bound to a fresh dict in the transport's "
+                             "own __init__ on every path, in every variant", floor=2)
+    root = lib.root
+    for tname, label in ((SVC + "transports/grpc.py.j2", "grpc"), (SVC + "transports/grpc_asyncio.py.j2", "grpc_asyncio")):
+        seen = False
+        for sk in lib.variants(tname, transport=("grpc",)):
+            for cls in classes(sk.tree()):
+                caches = set()
+                for fn in cls.body:
+                    if isinstance(fn, ast.FunctionDef) and any(D(sk, d) == "property" for d in fn.decorator_list):
+                        for n in ast.walk(fn):
+                            if isinstance(n, ast.Assign) and len(n.targets) == 1 and isinstance(n.targets[0], ast.Subscript):
+                                t = n.targets[0].value
+                                if isinstance(t, ast.Attribute) and isinstance(t.value, ast.Name) and t.value.id == "self":
+                                    caches.add(t.attr)
+                if not caches:
+                    continue
+                seen = True
+                init = next((f for f in cls.body if isinstance(f, ast.FunctionDef) and f.name == "__init__"), None)
+                r.need(init is not None, f"{label}: __init__ of {D(sk, cls)[:60]}")
+                for attr in sorted(caches):
+                    r.instance({"template": label, "cache": "self." + attr})
+                    fresh = []
+                    for st in init.body:     # top level of __init__ only: a binding under a condition leaves some instances sharing
+                        tg = st.targets[0] if isinstance(st, ast.Assign) and len(st.targets) == 1 else st.target if isinstance(st, ast.AnnAssign) and st.value is not None else None
+                        if isinstance(tg, ast.Attribute) and isinstance(tg.value, ast.Name) and tg.value.id == "self" and tg.attr == attr:
+                            v = st.value
+                            if (isinstance(v, ast.Dict) and not v.keys) or (isinstance(v, ast.Call) and isinstance(v.func, ast.Name)
+                                                                              and v.func.id in ("dict", "OrderedDict") and not v.args and not v.keywords):
+                                seg = sk.seg_of_node(st)
+                                cseg = sk.seg_of_node(init)
+                                if not [g for g in seg.guards[len(cseg.guards):]]:
+                                    fresh.append(st)
+                    r.check(bool(fresh), *where(sk, init, root), f"{label}: __init__ does not bind self.{attr} to a fresh dict",
+                            f"the stub properties cache channel-bound callables in self.{attr}; without an unconditional `self.{attr} = {{}}` in "
+                            f"__init__ the cache is the class attribute shared by every instance (stubs of the first transport's channel are reused)")
+        r.need(seen, f"{label}: a class whose properties write self.<cache>[key]")
 
 
 def check_python(report):
@@ -235,6 +278,7 @@ def run(report: core.Report):
         r.instance({"pb2(in,out)": key})
         r.check(a.get(key) == b.get(key) or key not in a or key not in b, lib.path(SVC + "transports/grpc_asyncio.py.j2"), 0,
                 f"stub call for pb2={key}", f"sync: {a.get(key)} / asyncio: {b.get(key)}")
+    check_stub_cache_scope(report, lib)
     check_python(report)
     check_dispatch(report, lib)
     check_call_path(report, lib)
